@@ -424,14 +424,17 @@ impl VersionManager {
             let current_min = self.min_version.load(Ordering::Acquire);
             let version = self.current_version.fetch_add(1, Ordering::AcqRel) + 1;
 
+            // Count the token while still holding the lock, so that
+            // try_advance_min_version() can never miss a token that already
+            // has a version assigned.
+            self.active_readers.fetch_add(1, Ordering::Relaxed);
+
             (version, current_min)
         } else {
             // Single-threaded modes don't need version tracking
+            self.active_readers.fetch_add(1, Ordering::Relaxed);
             (1, 1)
         };
-
-        // Increment active reader count
-        self.active_readers.fetch_add(1, Ordering::Relaxed);
 
         // Update statistics
         if let Ok(mut stats) = self.stats.lock() {
@@ -465,32 +468,35 @@ impl VersionManager {
 
         let start_time = Instant::now();
 
-        // For OneWriteMultiRead, ensure no other writers are active
-        if self.concurrency_level == ConcurrencyLevel::OneWriteMultiRead {
-            let current_writers = self.active_writers.load(Ordering::Acquire);
-            if current_writers > 0 {
-                return Err(ZiporaError::resource_busy(
-                    "Another writer is already active in OneWriteMultiRead mode",
-                ));
-            }
-        }
-
         // Acquire version under lock for synchronized levels
         let (version, min_version) = if self.concurrency_level.requires_synchronization() {
             let _lock = self.token_chain_mutex.lock().map_err(|_| {
                 ZiporaError::system_error("Failed to acquire token chain mutex for writer")
             })?;
 
+            // For OneWriteMultiRead, ensure no other writers are active. The check
+            // and the increment below happen under the same lock, so two threads
+            // can never both pass the check.
+            if self.concurrency_level == ConcurrencyLevel::OneWriteMultiRead {
+                let current_writers = self.active_writers.load(Ordering::Acquire);
+                if current_writers > 0 {
+                    return Err(ZiporaError::resource_busy(
+                        "Another writer is already active in OneWriteMultiRead mode",
+                    ));
+                }
+            }
+
             let current_min = self.min_version.load(Ordering::Acquire);
             let version = self.current_version.fetch_add(1, Ordering::AcqRel) + 1;
 
+            // Count the token while still holding the lock (see acquire_reader_token)
+            self.active_writers.fetch_add(1, Ordering::Relaxed);
+
             (version, current_min)
         } else {
+            self.active_writers.fetch_add(1, Ordering::Relaxed);
             (1, 1)
         };
-
-        // Increment active writer count
-        self.active_writers.fetch_add(1, Ordering::Relaxed);
 
         // Update statistics
         if let Ok(mut stats) = self.stats.lock() {
@@ -545,6 +551,13 @@ impl VersionManager {
     /// This is a simplified version - in a full implementation, this would
     /// track individual token versions in a linked list.
     fn try_advance_min_version(&self) {
+        // Serialize with token acquisition: tokens are counted under this lock, so
+        // seeing zero counts here means no token with an assigned version is live,
+        // and no new version can be handed out before the store below.
+        let _lock = match self.token_chain_mutex.lock() {
+            Ok(guard) => guard,
+            Err(_) => return,
+        };
         if self.active_readers.load(Ordering::Relaxed) == 0
             && self.active_writers.load(Ordering::Relaxed) == 0
         {
